@@ -1340,7 +1340,7 @@ def replay_seq(us, ops, v, vs=None):
                 sp = 2.0 * (math.nextafter(max(abs(lo), abs(hi)), math.inf) - max(abs(lo), abs(hi)))
                 f1 = feval(e, max(lo, x - 1.5 * acc - sp)); f2 = feval(e, min(hi, x + 1.5 * acc + sp))
                 if not (f1 - 1e-15 <= u <= f2 + 1e-15): out.append(("invt:root", f"cdf({x!r}) does not bracket the uniform {u!r} within the accuracy: cdf in [{f1!r},{f2!r}]"))
-                else:
+                if True:
                     # the clause itself: |cdf(x) - xi| <= (slope bound of the cdf on the domain) * (acc + 2 spacings) + evaluation error of the cdf (1e-12 a priori)
                     sb = slope_bound(e, lo, hi)
                     if sb is not None and sb[2] == sb[2] and not math.isinf(sb[2]):
